@@ -26,8 +26,10 @@ Fixpoint fit (m : Z) (l : list entry) : list entry :=
 Definition insert (m : Z) (e : entry) (l : list entry) : list entry := fit m (e :: l).
 Definition resize (m : Z) (l : list entry) : list entry := fit m l.
 
-(** 2.3.3: one address space; 1..61 static, 62.. dynamic with 62 the newest; 0 is not an index *)
+(** 2.3.3: one address space; 1..61 static, 62.. dynamic with 62 the newest; 0 is not an index.
+    (The range test before [nth_error] keeps the function executable on astronomically large
+    indices: [Z.to_nat] is never applied to a number larger than the table.) *)
 Definition lookup (i : Z) (dyn : list entry) : option entry :=
   if (1 <=? i) && (i <=? 61) then nth_error static_table (Z.to_nat (i - 1))
-  else if 62 <=? i then nth_error dyn (Z.to_nat (i - 62))
+  else if (62 <=? i) && (i - 62 <? len dyn) then nth_error dyn (Z.to_nat (i - 62))
   else None.
